@@ -53,7 +53,7 @@ type Case struct {
 
 var rec = ev.New("C20", "c20.proxy",
 	"generated exchanges over real loopback HTTP (backend httptest.Server -> proxy.New handler -> client without transparent decompression): well-formed HTML documents from a content-model-respecting grammar (doctype?, html/head/body explicit or omitted, nested block/inline content, existing scripts/styles/comments, attributes, entities, non-ASCII; up to several MiB) "+
-		"x encodings {none, gzip, br, deflate, zstd, junk} x content types {text/html, +charset, json, plain, css} x CSP shapes x {plain, HX-Request, skip marker} x {Content-Length, chunked} x {answered at once, backend closing the connection without an answer for the first 1-3 attempts}. "+
+		"x encodings {none, gzip, br, deflate, zstd, junk} x content types {text/html, +charset, json, plain, css} x CSP shapes x {plain, HX-Request, skip marker} x {Content-Length, chunked} x {fetched once, the same page fetched again with another nonce or encoding} x {answered at once, backend closing the connection without an answer for the first 1-3 attempts}. "+
 		"Oracle: for HTML in identity/gzip/br the body decoded per the received Content-Encoding must parse to the original DOM plus exactly one <script src=/_templ/reload/script.js [nonce]> as last child of body, nonce = first nonce of script-src, Content-Length = bytes received; everything else byte-identical with unchanged headers. "+
 		"Non-trivial = encoded body, CSP present, body > 64 KiB, or a pass-through class; distinct by exchange")
 
@@ -554,8 +554,27 @@ var genDoc = rapid.Custom(func(t *rapid.T) string {
 	return sb.String()
 })
 
+// SeqCase: the same page fetched several times in a row through the one proxy, as live reload does,
+// with what the application varies per request (the CSP nonce, the encoding it negotiates).
+type SeqCase struct {
+	Cases []Case `json:"cases"`
+}
+
+func decideSeq(sc SeqCase) error {
+	for i, c := range sc.Cases {
+		if err := decide(c); err != nil {
+			return fmt.Errorf("fetch %d of %d of the same page: %v", i+1, len(sc.Cases), err)
+		}
+	}
+	return nil
+}
+
 func init() {
 	ev.RegisterReplay("c20.proxy", func(raw json.RawMessage) error {
+		var sc SeqCase
+		if err := json.Unmarshal(raw, &sc); err == nil && len(sc.Cases) > 0 {
+			return decideSeq(sc)
+		}
 		var c Case
 		if err := json.Unmarshal(raw, &c); err != nil {
 			return err
@@ -608,6 +627,23 @@ func TestPropProxy(t *testing.T) {
 		}
 		if err := decide(c); err != nil {
 			rec.Fail(t, c, "%v", err)
+		}
+		// the same page again, with another nonce (one per request, as a CSP middleware mints them),
+		// without one, in another encoding
+		if rapid.IntRange(0, 4).Draw(t, "again") == 0 {
+			sc := SeqCase{Cases: []Case{c}}
+			for i, n := 0, rapid.IntRange(1, 3).Draw(t, "refetches"); i < n; i++ {
+				c2 := c
+				c2.DropFirst = 0
+				c2.CSP = rapid.SampledFrom([]string{"", "script-src 'self' 'nonce-second1'", "script-src 'nonce-third22' 'strict-dynamic'", c.CSP}).Draw(t, "csp2")
+				c2.Encoding = rapid.SampledFrom([]string{c.Encoding, c.Encoding, "", "gzip", "br"}).Draw(t, "enc2")
+				sc.Cases = append(sc.Cases, c2)
+			}
+			rec.Class("the same page fetched again with another nonce / encoding")
+			rec.Eval(len(sc.Cases) - 1)
+			if err := decideSeq(SeqCase{Cases: sc.Cases[1:]}); err != nil {
+				rec.Fail(t, sc, "%v", err)
+			}
 		}
 	})
 }
